@@ -310,6 +310,8 @@ class DataFile:
 
     self.last_sn = None
 
+    self.is_cumulative_set_started = False
+
     self.is_in_extension = False
 
     self.tti_tf = None
@@ -456,6 +458,11 @@ class DataFile:
 
     self.is_in_extension = False
 
+    # a cumulative set starts with a subtitle with CS=01h, even if that subtitle is later skipped
+
+    if tti.CS == 0x01:
+      self.is_cumulative_set_started = False
+
     # apply program offset
 
     try:
@@ -479,9 +486,11 @@ class DataFile:
 
     # create a new subtitle if SN changes and we are not in cumulative mode
 
-    if tti.SN is not self.last_sn and tti.CS in (0x00, 0x01):
+    if tti.SN != self.last_sn and (tti.CS in (0x00, 0x01) or not self.is_cumulative_set_started):
 
       self.last_sn =  tti.SN
+
+      self.is_cumulative_set_started = tti.CS != 0x00
 
       # find the div to which the subtitle belongs, based on SGN
 
